@@ -148,8 +148,17 @@ def correspondence(ctx):
             else:
                 yield B.Gen(r, exotic=True).program()[1], None
 
-    res = corr_run(m, cases(), cfg)
-    res["area"] = "analyzer on unknown names / malformed text (T1-b)"
+    PADS = ["", "", " ", "\t", "\n", " \n\t", "\x0c", "\u00a0"]
+
+    def padded():
+        # outer padding: what `analyze` strips (bash blanks) and what it must keep (form feed, NBSP) – ties `stripCmd`
+        for cmd, extra in cases():
+            if r.chance(0.12):
+                cmd = r.pick(PADS) + cmd + r.pick(PADS)
+            yield cmd, extra
+
+    res = corr_run(m, padded(), cfg)
+    res["area"] = "analyzer on unknown names / malformed text, outer padding (T1-b)"
     # exceptions on absurdly deep inputs are C06's business (the hook answers {}): not divergences here
     res["divergences"] = [d for d in res["divergences"] if d.get("kind") != "impl-exception" or "Recursion" not in str(d.get("impl"))]
     return [CC.corr_tables(m), res]
